@@ -63,6 +63,29 @@ Ltac arm_cases k Eb :=
   [ simpl in Eb; injection Eb as <-
   | simpl in Eb; first [ solve [destruct k; discriminate Eb] | arm_cases k Eb ] ].
 
+(* dispatch through a table of per-arm specifications (keeps proof terms small) *)
+Lemma In_combine_seq_nth {A} (l : list A) : forall a k x, nth_error l k = Some x -> In (a + k, x) (combine (seq a (length l)) l).
+Proof.
+  induction l as [|y t IH]; intros a k x E; [destruct k; discriminate|].
+  destruct k as [|k]; simpl in *.
+  - injection E as <-. left. rewrite Nat.add_0_r. reflexivity.
+  - right. replace (a + S k) with (S a + k) by lia. apply IH. exact E.
+Qed.
+
+Lemma wp_dispatch_specs mid heads bodies (spec : nat -> body -> Prop) t (Q : presult -> st -> Prop) s :
+  total_heads heads -> aligned heads bodies ->
+  Forall (fun kb => spec (fst kb) (snd kb)) (combine (seq 0 (length bodies)) bodies) ->
+  (forall k b, spec k b -> first_match heads t = k ->
+       head_matches t (nth k heads []) = true ->
+       (forall j, j < k -> head_matches t (nth j heads []) = false) ->
+       wp (b t) Q (set_out (EvArm mid k :: out s) s)) ->
+  wp (arm_dispatch mid heads bodies t) Q s.
+Proof.
+  intros T A F H. apply wp_arm_dispatch; [exact T | exact A |].
+  intros k b Ek Eb Hm Hn. apply (H k b); try assumption.
+  rewrite Forall_forall in F. apply (F (k, b)). apply (In_combine_seq_nth bodies 0 k b Eb).
+Qed.
+
 Lemma res_ok_done t : res_ok t Done. Proof. intros _. exact Logic.I. Qed.
 Lemma res_ok_nonchars t r : is_chars t = false -> res_ok t r. Proof. intros E C. congruence. Qed.
 
